@@ -243,7 +243,7 @@ func init() {
 	core.Register(&core.Check{
 		ID:    "C13",
 		Level: "exploration",
-		Rule: "one tiny program per call: every non-graphics built-in x argument tuples from value classes (numbers incl. NaN, +-Inf, -0, 2^31, 2^53+1, 1e300; strings incl. empty, multi-byte, astral, markup; composites; any), the documented sprintf verbs x flags x widths x precisions x matching and mismatching argument types, test with 1..5 arguments, err/errmsg protocol sequences; expected result from the reference table written from docs/builtins.md; plus random sequences of 3-7 grid cells in one program (state left by one call meets the next), all documentation examples with an evy:output block and (sampled) exit status / stderr of the real evy run. distinct = distinct (built-in, argument classes) cells",
+		Rule:  "one tiny program per call: every non-graphics built-in x argument tuples from value classes (numbers incl. NaN, +-Inf, -0, 2^31, 2^53+1, 1e300; strings incl. empty, multi-byte, astral, markup; composites; any), the documented sprintf verbs x flags x widths x precisions x matching and mismatching argument types, test with 1..5 arguments, err/errmsg protocol sequences; expected result from the reference table written from docs/builtins.md; plus random sequences of 3-7 grid cells in one program (state left by one call meets the next), all documentation examples with an evy:output block and (sampled) exit status / stderr of the real evy run. distinct = distinct (built-in, argument classes) cells",
 		Assumptions: []string{
 			"widenings: spelling of non-finite and very large numbers compared by value; %v with precision on numbers, undocumented verbs, too few/many format arguments, str2num of hex/inf/nan/underscore spellings, replace with empty old string, exit with non-integer status are not judged",
 			"rand is judged by predicate (integral, 0 <= r < n) not by value",
